@@ -1,7 +1,7 @@
 /-
   EasyMl.Model.Det — code-shaped model of determinant and inverse (`src/linear_algebra.rs`).
 
-    heaps / withEachPermutation / generatePermutations   linear_algebra.rs:494-545
+    (Heap's algorithm: EasyMl/Model/Heaps.lean)          linear_algebra.rs:494-545
     detView            determinant_less_generic           linear_algebra.rs:434-481
     determinant        determinant (Matrix)               linear_algebra.rs:346-364
     minorMatrix        minor / minor_mut                  linear_algebra.rs:256-285
@@ -19,58 +19,12 @@
   `NumOrd` (for `== T::zero()`); the driver runs it at `Fp` and `Rat`, the theorems
   (Props/C07) at commutative rings / fields of Mathlib.  Core Lean only.
 -/
-import EasyMl.Model.Basic
+import EasyMl.Model.Heaps
 import EasyMl.Model.Fp
 import EasyMl.Model.Matrix
 import EasyMl.Model.Tensor
 
 namespace EasyMl.Det
-
-/-! ### Heap's algorithm (`heaps_permutations`) -/
-
-section Heaps
-variable {α σ : Type}
-
-/-- `Vec::swap(i, j)`.  (Out of range it would panic; in `heaps` both indices are `< k ≤ len`.) -/
-def swap (l : List α) (i j : Nat) : List α :=
-  match l[i]?, l[j]? with
-  | some a, some b => (l.set i b).set j a
-  | _, _ => l
-
-/-- The swap performed after the `i`-th recursive call of level `k`:
-    `if i < k - 1 { if k % 2 == 0 { list.swap(i, k-1) } else { list.swap(0, k-1) } }`. -/
-def heapsSwap (k i : Nat) (list : List α) : List α :=
-  if i < k - 1 then
-    if k % 2 == 0 then swap list i (k - 1) else swap list 0 (k - 1)
-  else list
-
-/-- `for i in 0..k { rec(k-1); swap }` with `fuel` iterations left, the next one being `i`.
-    `rec` is `heaps_permutations(k - 1, ·, consumer)`. -/
-def heapsLoop (rec : List α → σ → List α × σ) (k : Nat) :
-    Nat → Nat → List α → σ → List α × σ
-  | 0, _, list, st => (list, st)
-  | fuel + 1, i, list, st =>
-    let (list, st) := rec list st
-    heapsLoop rec k fuel (i + 1) (heapsSwap k i list) st
-
-/-- `heaps_permutations(k, list, consumer)`; the consumer's captured state is threaded as `σ`.
-    Structural recursion on `k` (the Rust recursion `k → k - 1`); `k = 0` runs `for i in 0..0`. -/
-def heaps (consumer : σ → List α → σ) : Nat → List α → σ → List α × σ
-  | 0, list, st => (list, st)
-  | 1, list, st => (list, consumer st list)
-  | k + 2, list, st => heapsLoop (heaps consumer (k + 1)) (k + 2) (k + 2) 0 list st
-
-/-- `with_each_permutation`: the consumer additionally gets the alternating `even_swaps` flag. -/
-def withEachPermutation (list : List α) (st : σ) (consumer : σ → List α → Bool → σ) :
-    List α × σ :=
-  let r := heaps (fun (s : Bool × σ) p => (!s.1, consumer s.2 p s.1)) list.length list (true, st)
-  (r.1, r.2.2)
-
-/-- `generate_permutations`: all emitted lists with their flag, in emission order. -/
-def generatePermutations (list : List α) : List (List α × Bool) :=
-  (withEachPermutation list [] (fun acc p e => acc ++ [(p, e)])).2
-
-end Heaps
 
 /-! ### Determinant -/
 
@@ -89,7 +43,7 @@ def signature (even : Bool) : α := if even then 1 else 0 - 1
 
 /-- `product = one; for (n, i) in permutation.iter().enumerate() { product = product * get([n, i]) }` -/
 def permProduct (get : Nat → Nat → α) (perm : List Nat) : α :=
-  perm.zipIdx.foldl (fun product (i, n) => product * get n i) 1
+  perm.zipIdx.foldl (fun product (x : Nat × Nat) => product * get x.2 x.1) 1
 
 /-- one call of the closure in `determinant_less_generic`: `sum = sum + signature * product` -/
 def detStep (get : Nat → Nat → α) (sum : α) (perm : List Nat) (even : Bool) : α :=
